@@ -34,36 +34,36 @@ func init() {
 
 // auxiliary parsers: name -> call returning whether it reported an error
 var auxFns = map[string]func(in []byte) bool{
-	"DecodeCMPP20":         func(in []byte) bool { _, e := cmpp20.DecodeCMPP20(in); return e != nil },
-	"DecodeCMPP30":         func(in []byte) bool { _, e := cmpp30.DecodeCMPP30(in); return e != nil },
-	"DecodeSGIP12":         func(in []byte) bool { _, e := sgip12.DecodeSGIP12(in); return e != nil },
-	"DecodeSMGP30":         func(in []byte) bool { _, e := smgp30.DecodeSMGP30(in); return e != nil },
-	"DecodeSMPP34":         func(in []byte) bool { _, e := smpp34.DecodeSMPP34(in); return e != nil },
-	"cmpp.PeekHeader":      func(in []byte) bool { _, e := cmpp.PeekHeader(in); return e != nil },
-	"cmpp.NewHeaderFromBytes": func(in []byte) bool { _, e := cmpp.NewHeaderFromBytes(in); return e != nil },
-	"sgip.PeekHeader":      func(in []byte) bool { _, e := sgip.PeekHeader(in); return e != nil },
-	"smgp.PeekHeader":      func(in []byte) bool { _, e := smgp.PeekHeader(in); return e != nil },
-	"smgp.NewHeaderFromBytes": func(in []byte) bool { _, e := smgp.NewHeaderFromBytes(in); return e != nil },
-	"smpp.PeekHeader":      func(in []byte) bool { _, e := smpp.PeekHeader(in); return e != nil },
-	"smpp.ReadTLVs":        func(in []byte) bool { _, e := smpp.ReadTLVs(packet.NewPacketReader(in)); return e != nil },
-	"smpp.ReadTLVs1":       func(in []byte) bool { r := packet.NewPacketReader(in); smpp.ReadTLVs1(r); return r.Error() != nil },
-	"smgp.ParseOptions":    func(in []byte) bool { _, e := smgp.ParseOptions(in); return e != nil },
-	"smgp.ReadOptions":     func(in []byte) bool { r := packet.NewPacketReader(in); smgp.ReadOptions(r); return r.Error() != nil },
-	"ParseLongSmsContent":  func(in []byte) bool { protocol.ParseLongSmsContent(string(in)); return false },
+	"DecodeCMPP20":                   func(in []byte) bool { _, e := cmpp20.DecodeCMPP20(in); return e != nil },
+	"DecodeCMPP30":                   func(in []byte) bool { _, e := cmpp30.DecodeCMPP30(in); return e != nil },
+	"DecodeSGIP12":                   func(in []byte) bool { _, e := sgip12.DecodeSGIP12(in); return e != nil },
+	"DecodeSMGP30":                   func(in []byte) bool { _, e := smgp30.DecodeSMGP30(in); return e != nil },
+	"DecodeSMPP34":                   func(in []byte) bool { _, e := smpp34.DecodeSMPP34(in); return e != nil },
+	"cmpp.PeekHeader":                func(in []byte) bool { _, e := cmpp.PeekHeader(in); return e != nil },
+	"cmpp.NewHeaderFromBytes":        func(in []byte) bool { _, e := cmpp.NewHeaderFromBytes(in); return e != nil },
+	"sgip.PeekHeader":                func(in []byte) bool { _, e := sgip.PeekHeader(in); return e != nil },
+	"smgp.PeekHeader":                func(in []byte) bool { _, e := smgp.PeekHeader(in); return e != nil },
+	"smgp.NewHeaderFromBytes":        func(in []byte) bool { _, e := smgp.NewHeaderFromBytes(in); return e != nil },
+	"smpp.PeekHeader":                func(in []byte) bool { _, e := smpp.PeekHeader(in); return e != nil },
+	"smpp.ReadTLVs":                  func(in []byte) bool { _, e := smpp.ReadTLVs(packet.NewPacketReader(in)); return e != nil },
+	"smpp.ReadTLVs1":                 func(in []byte) bool { r := packet.NewPacketReader(in); smpp.ReadTLVs1(r); return r.Error() != nil },
+	"smgp.ParseOptions":              func(in []byte) bool { _, e := smgp.ParseOptions(in); return e != nil },
+	"smgp.ReadOptions":               func(in []byte) bool { r := packet.NewPacketReader(in); smgp.ReadOptions(r); return r.Error() != nil },
+	"ParseLongSmsContent":            func(in []byte) bool { protocol.ParseLongSmsContent(string(in)); return false },
 	"smpp34.ExtractDeliveryReceipt":  func(in []byte) bool { _, e := smpp34.ExtractDeliveryReceipt(string(in)); return e != nil },
 	"smgp30.ExtractDeliveryReceipt":  func(in []byte) bool { _, e := smgp30.ExtractDeliveryReceipt(string(in)); return e != nil },
 	"smgp30.ExtractDeliveryReceipt1": func(in []byte) bool { _, e := smgp30.ExtractDeliveryReceipt1(string(in)); return e != nil },
-	"Ascii.Decode":         func(in []byte) bool { _, e := datacoding.Ascii(in).Decode(); return e != nil },
-	"Latin1.Decode":        func(in []byte) bool { _, e := datacoding.Latin1(in).Decode(); return e != nil },
-	"UCS2.Decode":          func(in []byte) bool { _, e := datacoding.UCS2(in).Decode(); return e != nil },
-	"GB18030.Decode":       func(in []byte) bool { _, e := datacoding.GB18030(in).Decode(); return e != nil },
-	"GSM7Packed.Decode":    func(in []byte) bool { _, e := datacoding.GSM7Packed(in).Decode(); return e != nil },
-	"GSM7Unpacked.Decode":  func(in []byte) bool { _, e := datacoding.GSM7Unpacked(in).Decode(); return e != nil },
-	"gsm7.Unpack":          func(in []byte) bool { gsm7.Unpack(in); return false },
-	"gsm7.Decode":          func(in []byte) bool { _, e := gsm7.Decode(in); return e != nil },
-	"gsm7.ValidateGSM7Buffer": func(in []byte) bool { gsm7.ValidateGSM7Buffer(in); return false },
-	"gsm7.ValidateGSM7String": func(in []byte) bool { gsm7.ValidateGSM7String(string(in)); return false },
-	"gsm7.IsValidGSM7String":  func(in []byte) bool { gsm7.IsValidGSM7String(string(in)); return false },
+	"Ascii.Decode":                   func(in []byte) bool { _, e := datacoding.Ascii(in).Decode(); return e != nil },
+	"Latin1.Decode":                  func(in []byte) bool { _, e := datacoding.Latin1(in).Decode(); return e != nil },
+	"UCS2.Decode":                    func(in []byte) bool { _, e := datacoding.UCS2(in).Decode(); return e != nil },
+	"GB18030.Decode":                 func(in []byte) bool { _, e := datacoding.GB18030(in).Decode(); return e != nil },
+	"GSM7Packed.Decode":              func(in []byte) bool { _, e := datacoding.GSM7Packed(in).Decode(); return e != nil },
+	"GSM7Unpacked.Decode":            func(in []byte) bool { _, e := datacoding.GSM7Unpacked(in).Decode(); return e != nil },
+	"gsm7.Unpack":                    func(in []byte) bool { gsm7.Unpack(in); return false },
+	"gsm7.Decode":                    func(in []byte) bool { _, e := gsm7.Decode(in); return e != nil },
+	"gsm7.ValidateGSM7Buffer":        func(in []byte) bool { gsm7.ValidateGSM7Buffer(in); return false },
+	"gsm7.ValidateGSM7String":        func(in []byte) bool { gsm7.ValidateGSM7String(string(in)); return false },
+	"gsm7.IsValidGSM7String":         func(in []byte) bool { gsm7.IsValidGSM7String(string(in)); return false },
 	"DecodeCMPPCContent": func(in []byte) bool {
 		if len(in) == 0 {
 			return false
